@@ -1042,9 +1042,11 @@ def parse_tree_to_objgraph(
             model._pos_crossref_list = pos_crossref_list
 
             # Dict for storing rules where key is position of rule instance in
-            # text. Sorted based on nested rules.
+            # text. Sorted based on nested rules: later starts first and, for
+            # the same start, shorter spans first. Thus each span comes before
+            # every span that contains it.
             model._pos_rule_dict = OrderedDict(
-                sorted(pos_rule_dict.items(), key=lambda x: x[0], reverse=True)
+                sorted(pos_rule_dict.items(), key=lambda x: (-x[0][0], x[0][1]))
             )
     # exception occurred during model creation
     except:  # noqa
